@@ -58,6 +58,64 @@ def termination(chk, db, rule):
                 'is bounded only by a decoded value and does not consume input each iteration')), function=ir.fn_label(f))
 
 
+def end_pointers(chk, db, rule):
+    """EP: the address of a std::array / std::vector element is taken only at an index that is provably below the extent.
+    `&c[N]` (the classic end-pointer idiom) is outside the precondition of operator[]: undefined behaviour, and an abort in
+    builds with library assertions.  Ranges must be formed from data() / begin() plus a count."""
+    import re
+    seen = {}
+    for f in db.fns:
+        if 'body' not in f or not f['file'].startswith('nop/'):
+            continue
+        # induction variables of counted loops `for (...; i < K; ...)` with a constant K: var id -> K, for the nodes of the loop body
+        bounded = {}
+
+        def loops(node, env):
+            if isinstance(node, dict):
+                e2 = env
+                if node.get('k') == 'for' and node.get('cond') is not None:
+                    cnd = ir.strip_all_casts(node['cond'])
+                    if cnd.get('k') == 'bin' and cnd.get('op') == '<':
+                        lv, kk = ir.strip_all_casts(cnd['l']), ir.const_of(ir.strip_all_casts(cnd['r']))
+                        if lv.get('k') == 'ref' and kk is not None:
+                            e2 = dict(env)
+                            e2[lv.get('id')] = kk
+                if node.get('k') == 'un' and node.get('op') == '&':
+                    bounded[id(node)] = e2
+                for v in node.values():
+                    loops(v, e2)
+            elif isinstance(node, list):
+                for v in node:
+                    loops(v, env)
+        loops(f['body'], {})
+        for y in ir.walk(f['body']):
+            if y.get('k') != 'un' or y.get('op') != '&':
+                continue
+            c = ir.strip_all_casts(y.get('e', {}))
+            cal = c.get('callee') or {}
+            if c.get('k') != 'call' or cal.get('n') != 'operator[]' or cal.get('rect') not in ('std::array', 'std::vector'):
+                continue
+            idx = c['args'][-1] if c.get('args') else None
+            k = ir.const_of(ir.strip_all_casts(idx)) if idx is not None else None
+            m = re.search(r'std::array<.*, (\d+)U?L?>$', cal.get('rec') or '')
+            extent = int(m.group(1)) if m else None
+            if k is not None and (extent is None or k < extent) and not (extent == 0):
+                ok, why = True, 'constant index %d below the extent' % k
+            elif k is not None:
+                ok, why = False, 'index %d is not below the extent %s of %s' % (k, extent, cal.get('rec'))
+            elif ir.strip_all_casts(idx).get('k') == 'ref' and ir.strip_all_casts(idx).get('id') in bounded.get(id(y), {}) and \
+                    (extent is None or bounded[id(y)][ir.strip_all_casts(idx)['id']] <= extent):
+                ok, why = True, 'loop index bounded by %d' % bounded[id(y)][ir.strip_all_casts(idx)['id']]
+            else:
+                ok, why = False, 'index `%s` may equal the extent of %s' % (ir.show(idx)[:40], (cal.get('rec') or '')[:60])
+            key = (f['file'], c.get('loc', {}).get('l'), c.get('loc', {}).get('c'))
+            if key not in seen or (not ok and seen[key][0]):
+                seen[key] = (ok, why, f)
+    for (file, line, col), (ok, why, f) in sorted(seen.items()):
+        chk.decide(ok, rule, '%s:%s:%s' % (file, line, col), 'address of a subscripted std container element in %s: %s' % (f['n'], why),
+                   function=ir.fn_label(f))
+
+
 def rules(chk, db):
     chk.rule('T', 'Ensure(n) succeeds exactly when n <= limit - pos, overflow-safe', minimum=2)
     chk.rule('G', 'bounded readers guard every transfer by need <= limit - pos', minimum=4)
@@ -73,6 +131,8 @@ def rules(chk, db):
     encrules.read_rules(chk, db, want=('ENS', 'GRD', 'RST'))      # RST: no decode into storage that was never constructed
     encrules.narrowing(chk, db, 'NR.r', {'ReadPayload', 'Read'})
     termination(chk, db, 'TM')
+    chk.rule('EP', 'no end pointer is formed by subscripting a std::array / std::vector at its extent (operator[] precondition)', minimum=2)
+    end_pointers(chk, db, 'EP')
     tablerules.rules(chk, db, {'TS', 'TR'})
 
 
